@@ -173,6 +173,17 @@ def _taproot(c, prog):
     c.inst("R1.taproot.error-edges", "missing input / missing SINGLE output are errors",
            have == {"IndexOutOfInputsBounds", "SingleWithoutCorrespondingOutput"} and all(v in ("TXIN", "TXOUT") for v in okm.values()),
            "ok_or sites %s; explicit error returns %s" % (okm, [x[1][:60] for x in e1 + e2]), f.where(), f.path)
+    # sha_annex is the hash of the compact-size prefixed annex *including* its 0x50 byte (BIP341): the Annex encoder writes the
+    # whole wrapped slice with its length, once, unconditionally
+    fa = prog.fn("<sighash::Annex<'_> as encode::Encodable>::consensus_encode")
+    ea = [e for e in events(fa.body, lambda t: is_encode_call(t) or re.search(r"consensus_encode_with_size$|emit_slice$|write_all$", callee_name(t)) is not None)]
+    shown = [(callee_name(e["t"]).split("::")[-1], re.sub(r"sighash::Annex::as_bytes\(arg1\)", "arg1.0", show(e["args"][0], -9)), len(e["conds"])) for e in ea]
+    ok_a = shown == [("consensus_encode_with_size", "arg1.0", 0)]
+    if not ok_a and len(shown) == 2:
+        # explicit form: VarInt(len) then the bytes
+        ok_a = (shown[0][0] == "consensus_encode" and re.sub(r"\s|core::slice::|encode::VarInt::|encode::", "", shown[0][1]) in ("VarInt{(len(arg1.0)asu64)}",) and shown[0][2] == 0
+                and shown[1][0] in ("emit_slice", "write_all") and shown[1][2] <= 1 and "arg1.0" in [show(a, -9) for a in ea[1]["args"]])
+    c.inst("R1.taproot.annex-encoding", "Annex is hashed as compact size followed by all of its bytes", ok_a, "encoder calls %s" % shown, fa.where(), fa.path)
     # KEY_VERSION_0
     kv = prog.const("sighash::KEY_VERSION_0")
     c.inst("R1.taproot.key-version", "KEY_VERSION_0 == 0", kv["val"] in ("0_u8", "0"), "value %s" % kv["val"], f.where(), f.path)
